@@ -4,6 +4,7 @@
 (*            in the order produced, plain, clear                                   *)
 (*  k="set":  style setter/getter/convenience law: st0, op, arg, st1, get           *)
 (*  k="eq":   Style == Effects : st, eff bits, result                                *)
+(*  k="on":   colour constructors; k="plain": Style::is_plain; k="from"/"from_eff": From conversions *)
 (*  k="col":  AnsiColor index k: from_ansi, into_ansi, bright(true/false), is_bright *)
 (*  k="idx":  Ansi256 index i: into_ansi (none = 16), index()                        *)
 EXTENDS StyleAlgebra, Json, IOUtils, TLC
@@ -30,6 +31,11 @@ EventOk(e) ==
            [] OTHER -> FALSE
     [] e.k = "eq" ->
          LET g == Gr(e.st) IN e.res = (g.fg = None /\ g.bg = None /\ g.ul = None /\ g.eff = SetOf(e.eff))
+    [] e.k = "on" ->          \* c.on(b) / c.on_default() for every colour type; Style::from(effects); Style::is_plain
+         /\ Gr(e.on) = OnStyle(e.c, e.b) /\ Gr(e.on_default) = OnStyle(e.c, None)
+    [] e.k = "plain" -> e.res = IsPlainStyle(Gr(e.st)) /\ e.new_is_plain
+    [] e.k = "from" -> e.r = ConvOf(e.which, e.n)
+    [] e.k = "from_eff" -> Gr(e.st) = [fg |-> None, bg |-> None, ul |-> None, eff |-> SetOf(e.eff)]
     [] e.k = "col" ->
          /\ e.from_ansi = e.i /\ e.into_ansi = e.i
          /\ e.bright1 = Bright(e.i, TRUE) /\ e.bright0 = Bright(e.i, FALSE) /\ e.is_bright = IsBright(e.i)
